@@ -126,11 +126,27 @@ def run_tg(solvers, bspline, assemble, c):
             u0 = np.zeros(n)
         elif c['u0'] == 'exact':
             u0 = xs.copy()
+        elif c['u0'] == 'far':
+            # far from the solution: large initial residual
+            u0 = 1024.0 * rs.randint(-8, 9, size=n)
+        elif c['u0'] == 'warm':
+            # warm start close to the solution: tiny initial residual
+            u0 = xs + rs.randint(-8, 9, size=n) * 2.0 ** -23
         u0_copy = None if u0 is None else np.array(u0, dtype=float)
-        S = solvers.GaussSeidelSmoother(iterations=1, sweep=c['sweep'])
+        S0 = solvers.GaussSeidelSmoother(iterations=1, sweep=c['sweep'])
+        calls = [0]
+        trace = []      # u after the smoothing steps of every cycle = where twogrid measures its residual
+
+        def S(A_, u_, f_):
+            S0(A_, u_, f_)
+            calls[0] += 1
+            if calls[0] % c['smooth_steps'] == 0:
+                trace.append(hx(u_))
         with contextlib.redirect_stdout(io.StringIO()) as out:
             u = solvers.twogrid(A, f, P, S, u0=u0, tol=fx(c['tol']), smooth_steps=c['smooth_steps'], maxiter=c['maxiter'])
         res['u'] = hx(u)
+        res['smoother_calls'] = calls[0]
+        res['trace'] = trace
         res['A'] = [hx(r) for r in A.toarray()]
         res['f'] = hx(f)
         res['xs'] = hx(xs)
